@@ -238,6 +238,23 @@ func CheckC06(p *Pkg, e *Env, r *res.Result) {
 			fail("roundtrip-differs", fmt.Sprintf("decoded value differs at %s (JSON %s)", why, clip(string(bs), 300)))
 			return
 		}
+		// a named array type with its own UnmarshalJSON decodes into a variable that held
+		// something before exactly as into a fresh one (the next page into the same
+		// variable); plain slices are left to encoding/json, whose reuse of old elements is
+		// its own documented business
+		if _, own := reflect.New(tg.Type).Interface().(json.Unmarshaler); own && tg.Type.Kind() == reflect.Slice && rapid.IntRange(0, 2).Draw(t, "reuse_receiver") == 0 {
+			g2 := &ValGen{T: t, Doc: p.Doc, Ctx: "json"}
+			v2 := g2.Gen(tg.Type, tg.Schema, 3)
+			if bs2, err2 := safeMarshal(v2.Interface()); err2 == nil {
+				if err := safeUnmarshal(bs2, w.Interface()); err == nil {
+					r.Label("reused-receiver-checked")
+					if ok, why := EqNorm(v2, w.Elem()); !ok {
+						fail("decode-into-used-receiver", fmt.Sprintf("decoding %s into a variable that already held the decoding of %s gives a value that differs at %s", clip(string(bs2), 200), clip(string(bs), 200), why))
+						return
+					}
+				}
+			}
+		}
 		if g.UnsetOptionals+g.Nulls+g.NonEmptyCollections+g.EscapeStrings > 0 {
 			r.NonTrivial("C06", p.Index, tg.Name, shapeHash(bs))
 		}
